@@ -151,15 +151,37 @@ func (x *jwksX) enter(fd *ast.FuncDecl) enterFacts {
 			f.storeNew = true
 			j++
 		}
+		// a local variable for the download's context (`dctx := context.WithoutCancel(ctx)`; one name, one expression) is seen through
+		local := map[string]string{}
+		for j < len(list) {
+			a, ok := list[j].(*ast.AssignStmt)
+			if !ok || a.Tok != token.DEFINE || len(a.Lhs) != 1 || len(a.Rhs) != 1 {
+				break
+			}
+			id, ok := a.Lhs[0].(*ast.Ident)
+			if !ok || id.Name == "ctx" || id.Name == "_" {
+				break
+			}
+			local[id.Name] = x.src(a.Rhs[0])
+			j++
+		}
 		if j < len(list) {
 			if g, ok := list[j].(*ast.GoStmt); ok && exprString(g.Call.Fun) == "r.updateKeys" && len(g.Call.Args) == 1 {
-				switch x.src(g.Call.Args[0]) {
+				// THE CONTEXT OF THE SHARED DOWNLOAD is a fact read from this call: `ctx` = the starting caller's context (its cancellation
+				// and its deadline end the download); `context.WithoutCancel(ctx)` / `context.Background()` = detached: NO cancellation and NO
+				// deadline of any caller (WithoutCancel: "Deadline returns the zero time, Done returns nil"). Anything else — a helper that
+				// builds the context, a re-attached deadline, a wrapper goroutine — is not understood and comes out UNSUPPORTED.
+				arg := x.src(g.Call.Args[0])
+				if v, ok := local[arg]; ok {
+					arg = v
+				}
+				switch arg {
 				case "ctx":
 					f.spawnCtx = ".caller"
 				case "context.WithoutCancel(ctx)", "context.Background()":
 					f.spawnCtx = ".detached"
 				default:
-					x.bad("keysFromRemote: context expression of go r.updateKeys(..): "+x.src(g.Call.Args[0]), g)
+					x.bad("keysFromRemote: context expression of go r.updateKeys(..): "+arg, g)
 				}
 				j++
 			} else {
@@ -258,12 +280,45 @@ func (x *jwksX) update(fd *ast.FuncDecl) string {
 			return op{".store false", "write"}, true
 		case "r.inflight = nil":
 			return op{".clear", "write"}, true
-		case "if err == nil { r.cachedKeys = keys }":
-			return op{".store true", "write"}, true
+		}
+		// the guarded cache update, in any spelling of the same conditional: `if err == nil { r.cachedKeys = keys }`,
+		// `if err != nil {} else { r.cachedKeys = keys }` (empty then-branch), `if nil == err {…}`, an empty `else {}`
+		if ifs, ok := s.(*ast.IfStmt); ok && !isDefer && ifs.Init == nil {
+			then, els := ifs.Body.List, []ast.Stmt(nil)
+			elseOK := true
+			switch e := ifs.Else.(type) {
+			case nil:
+			case *ast.BlockStmt:
+				els = e.List
+			default:
+				elseOK = false // else-if chain
+			}
+			cond := strings.ReplaceAll(x.src(ifs.Cond), " ", "")
+			errNil := cond == "err==nil" || cond == "nil==err"
+			errNotNil := cond == "err!=nil" || cond == "nil!=err"
+			isStore := func(l []ast.Stmt) bool { return len(l) == 1 && x.src(l[0]) == "r.cachedKeys = keys" }
+			if elseOK && ((errNil && isStore(then) && len(els) == 0) || (errNotNil && len(then) == 0 && isStore(els))) {
+				return op{".store true", "write"}, true
+			}
 		}
 		return op{}, false
 	}
-	for _, s := range fd.Body.List {
+	// a local name for the request in the shared field that is used by the very next statement only (`infl := r.inflight` directly
+	// followed by `infl.done(keys, err)`) is the same as `r.inflight.done(keys, err)`: nothing can change the field in between
+	body := fd.Body.List
+	skipNext := false
+	for bi, s := range body {
+		if skipNext {
+			skipNext = false
+			continue
+		}
+		if a, ok := s.(*ast.AssignStmt); ok && seenFetch && a.Tok == token.DEFINE && len(a.Lhs) == 1 && len(a.Rhs) == 1 && x.src(a.Rhs[0]) == "r.inflight" && bi+1 < len(body) {
+			if id, ok := a.Lhs[0].(*ast.Ident); ok && x.src(body[bi+1]) == id.Name+".done(keys, err)" {
+				ops = append(ops, op{".doneField", "done"})
+				skipNext = true
+				continue
+			}
+		}
 		if isBookkeeping(s) {
 			continue
 		}
@@ -371,6 +426,67 @@ func (x *jwksX) keySetDecoder(fd *ast.FuncDecl) bool {
 	return true
 }
 
+// fetchRemoteKeys: the last link of "which context does the shared download run under": the HTTP request must be made under the
+// context the function was given (http.NewRequestWithContext(ctx, …) — `ctx` possibly re-bound by the tracer, which derives it), no
+// other context may be built here (context.WithTimeout / WithDeadline / Background …), the request must go through
+// httphelper.HttpRequest(r.httpClient, req, keySet) (whose decision structure is `http`), its error must be returned, and the result is
+// the decoded key set. Features, not text: statement order and spelling of the error messages are free.
+func (x *jwksX) fetch(fd *ast.FuncDecl) {
+	newReq, httpReq, retKeys, otherCtx := 0, 0, false, ""
+	ast.Inspect(fd.Body, func(n ast.Node) bool {
+		switch v := n.(type) {
+		case *ast.CallExpr:
+			fun := exprString(v.Fun)
+			switch {
+			case fun == "http.NewRequestWithContext":
+				newReq++
+				if len(v.Args) == 0 || x.src(v.Args[0]) != "ctx" {
+					x.bad("fetchRemoteKeys: the request is not made under the context the function was given: "+x.src(v), v)
+				}
+			case fun == "http.NewRequest":
+				x.bad("fetchRemoteKeys: request without a context: "+x.src(v), v)
+			case fun == "httphelper.HttpRequest":
+				httpReq++
+				if len(v.Args) != 3 || x.src(v.Args[0]) != "r.httpClient" || x.src(v.Args[1]) != "req" || x.src(v.Args[2]) != "keySet" {
+					x.bad("fetchRemoteKeys: arguments of httphelper.HttpRequest: "+x.src(v), v)
+				}
+			case strings.HasPrefix(fun, "context."):
+				otherCtx = x.src(v)
+			}
+		case *ast.AssignStmt:
+			// `ctx` may only be re-bound by the tracer
+			for i, l := range v.Lhs {
+				if id, ok := l.(*ast.Ident); ok && id.Name == "ctx" {
+					if len(v.Rhs) != 1 || i != 0 || !strings.HasPrefix(x.src(v.Rhs[0]), "client.Tracer.Start(ctx,") {
+						x.bad("fetchRemoteKeys: ctx re-bound: "+x.src(v), v)
+					}
+				}
+			}
+		case *ast.ReturnStmt:
+			if len(v.Results) == 2 && x.src(v.Results[1]) == "nil" {
+				if x.src(v.Results[0]) == "keySet.Keys" {
+					retKeys = true
+				} else {
+					x.bad("fetchRemoteKeys: successful return of something else than the decoded key set: "+x.src(v), v)
+				}
+			}
+		}
+		return true
+	})
+	if newReq != 1 {
+		x.bad("fetchRemoteKeys: expected exactly one http.NewRequestWithContext(ctx, …)", fd)
+	}
+	if httpReq != 1 {
+		x.bad("fetchRemoteKeys: expected exactly one httphelper.HttpRequest(r.httpClient, req, keySet)", fd)
+	}
+	if !retKeys {
+		x.bad("fetchRemoteKeys: no `return keySet.Keys, nil`", fd)
+	}
+	if otherCtx != "" {
+		x.bad("fetchRemoteKeys: builds a context of its own: "+otherCtx, fd)
+	}
+}
+
 func jwksFacts(g *genCtx) string {
 	x := &jwksX{g: g}
 	var b strings.Builder
@@ -382,6 +498,11 @@ func jwksFacts(g *genCtx) string {
 	}
 	ef := x.enter(kfr)
 	blocks := x.update(upd)
+	if frk := g.findFunc(jwksFile, "remoteKeySet.fetchRemoteKeys"); frk != nil {
+		x.fetch(frk)
+	} else {
+		x.bad("remoteKeySet.fetchRemoteKeys not found", nil)
+	}
 	skips := true
 	if ks := g.findFunc(jwksFile, "jsonWebKeySet.UnmarshalJSON"); ks != nil {
 		skips = x.keySetDecoder(ks)
